@@ -373,6 +373,64 @@ theorem discoverLoop_total {d : Dropins} (hd : ∀ k, AList.lookup d k ≠ some 
     · have hc' : candidate e = false := by simpa using hc
       simp [hc', hfs]
 
+/-! ### requests, idle periods and Stop -/
+
+/-- every plugin of `active` is still in the runtime's list or has had `p.stop()` called -/
+def Covered (active : List Found) (st : RunState) : Prop :=
+  ∀ f ∈ active, f ∈ st.plugins.map (·.1) ∨ f ∈ st.stopped
+
+theorem covered_init (active : List Found) : Covered active (initRun active) := by
+  intro f hf
+  left
+  simp [initRun, List.map_map, Function.comp_def, hf]
+
+theorem covered_stepRequest {active : List Found} {st : RunState} (h : Covered active st) :
+    Covered active (stepRequest st) := by
+  intro f hf
+  rcases h f hf with hin | hin
+  · simp only [List.mem_map] at hin
+    obtain ⟨⟨g, c⟩, hp, rfl⟩ := hin
+    simp only [stepRequest]
+    by_cases hc : (c || decide (g.exec = .runs .diesLater)) = true
+    · right
+      apply List.mem_append_right
+      simp only [List.mem_map, List.mem_filter]
+      exact ⟨(g, c || decide (g.exec = .runs .diesLater)), ⟨⟨(g, c), hp, rfl⟩, hc⟩, rfl⟩
+    · left
+      simp only [List.mem_map, List.mem_filter]
+      refine ⟨(g, c || decide (g.exec = .runs .diesLater)), ⟨⟨(g, c), hp, rfl⟩, ?_⟩, rfl⟩
+      simpa using hc
+  · right
+    simp only [stepRequest]
+    exact List.mem_append_left _ hin
+
+theorem covered_stepIdle {active : List Found} {st : RunState} (h : Covered active st) :
+    Covered active (stepIdle st) := by
+  intro f hf
+  rcases h f hf with hin | hin
+  · left
+    simpa [stepIdle, List.map_map, Function.comp_def] using hin
+  · right; exact hin
+
+theorem covered_runPlan {active : List Found} (plan : List Step) {st : RunState} (h : Covered active st) :
+    Covered active (runPlan st plan) := by
+  induction plan generalizing st with
+  | nil => exact h
+  | cons s rest ih =>
+    simp only [runPlan, List.foldl_cons]
+    apply ih
+    cases s
+    · exact covered_stepRequest h
+    · exact covered_stepIdle h
+
+theorem covered_stopAll {active : List Found} {st : RunState} (h : Covered active st) :
+    ∀ f ∈ active, f ∈ (stopAll st).stopped := by
+  intro f hf
+  simp only [stopAll]
+  rcases h f hf with hin | hin
+  · exact List.mem_append_right _ hin
+  · exact List.mem_append_left _ hin
+
 /-! ### index order -/
 
 theorem pairwise_sortedByIdx {l : List Found} (h : l.Pairwise fun a b => idxVal a.idx ≤ idxVal b.idx) :
